@@ -17,11 +17,30 @@ package tdx
 // is what makes the discarded error of the second call in generateAllPossibleMRTDs unreachable; this clause is
 // an assumed (unverified) part of the contract.
 //@ func MRTD
-//@   requires opts != nil
+//@   requires opts != nil && len(fw) < 2147483648 && len(opts.GuestRAMBanks) < 1048576
 //@   assigns nothing
 //@   modifies pbsrc, pbok
-//@   ensures err == nil ==> val(result0) == mrtdOf(val(fw), banksOf(opts.GuestRAMBanks), opts.DisableUnacceptedMemory, opts.MeasureAllRegions)
-//@   ensures (err != nil) == mrtdFails(val(fw), banksOf(opts.GuestRAMBanks), opts.MeasureAllRegions)
+//@   sweep[C08]
+//@   ensures[assume] err == nil ==> val(result0) == mrtdOf(val(fw), banksOf(opts.GuestRAMBanks), opts.DisableUnacceptedMemory, opts.MeasureAllRegions)
+//@   ensures[assume] (err != nil) == mrtdFails(val(fw), banksOf(opts.GuestRAMBanks), opts.MeasureAllRegions)
+//@   loop 1 invariant forall(r, Int, !fresh(r) ==> wrLen[r] == old(wrLen)[r] && wrLog[r] == old(wrLog)[r])
+//@   loop 1 invariant m != nil && m.digest != nil && forall(k, 0 <= k && k < len(regions) ==> regions[k] != nil)
+
+//@ func NewMeasurement
+//@   assigns nothing
+//@   sweep[C08]
+//@   ensures result != nil && fresh(result) && result.digest != nil && fresh(ref(result.digest)) && !result.MeasureAllRegions && hashSizeOf(ref(result.digest)) == 48
+
+//@ func NewMeasurementTDHOBBug
+//@   assigns nothing
+//@   sweep[C08]
+//@   ensures result != nil && fresh(result) && result.digest != nil && fresh(ref(result.digest)) && result.MeasureAllRegions && hashSizeOf(ref(result.digest)) == 48
+
+//@ func (*Measurement).Finalize
+//@   requires m != nil && m.digest != nil && hashSizeOf(ref(m.digest)) == 48
+//@   assigns nothing
+//@   sweep[C08]
+//@   ensures[C05] forall(k, 0 <= k && k < 48 ==> result[k] == digestOf(wrLog[ref(m.digest)], wrLen[ref(m.digest)])[k])
 
 //@ func machineTypeToRAMBanks trusted
 //@   assigns nothing
@@ -51,3 +70,69 @@ package tdx
 //@   loop 1 invariant 0 <= a && a < len(result) ==> result[a] != nil && fresh(result[a]) && len(result[a].Mrtd) == 48 && fresh(result[a].Mrtd)
 //@   loop 1 invariant 0 <= a && a < len(result) && tdxRequest.IncludeEarlyAccept ==> result[a].EarlyAccept == (a % 2 == 1) && val(result[a].Mrtd) == mrtdOf(val(uefi), shapeBanks(tdxRequest.MachineShapes[a / 2]), a % 2 == 1, true)
 //@   loop 1 invariant 0 <= a && a < len(result) && !tdxRequest.IncludeEarlyAccept ==> !result[a].EarlyAccept && val(result[a].Mrtd) == mrtdOf(val(uefi), shapeBanks(tdxRequest.MachineShapes[a]), false, true)
+
+// ---- C05/C08: the MRTD stream. The hash is a writer whose ghost log (wrLen/wrLog, /verif/stubs/io.spec) is the byte
+// stream hashed so far; MRTD is digestOf(that stream). ----
+//@ func (*Measurement).extend
+//@   requires m != nil && m.digest != nil
+//@   assigns nothing
+//@   modifies wrLen, wrLog
+//@   sweep[C08]
+//@   ensures[C05] wrLen == store(old(wrLen), ref(m.digest), old(wrLen)[ref(m.digest)] + len(data)) && wrLog == store(old(wrLog), ref(m.digest), wrLog[ref(m.digest)])
+//@   ensures[C05] forall(k, 0 <= k && k < len(data) ==> wrLog[ref(m.digest)][old(wrLen)[ref(m.digest)] + k] == bytesAt(data, k))
+//@   ensures[C05] forall(j, j < old(wrLen)[ref(m.digest)] ==> wrLog[ref(m.digest)][j] == old(wrLog)[ref(m.digest)][j])
+
+// TDH.MEM.PAGE.ADD record (TDX module spec): 128 bytes, "MEM.PAGE.ADD" at 0..11, GPA little-endian at 16..23, zero elsewhere.
+//@ func (*Measurement).pageAdd
+//@   requires m != nil && m.digest != nil
+//@   assigns nothing
+//@   modifies wrLen, wrLog
+//@   sweep[C08]
+//@   ensures[C05] wrLen == store(old(wrLen), ref(m.digest), old(wrLen)[ref(m.digest)] + 128) && wrLog == store(old(wrLog), ref(m.digest), wrLog[ref(m.digest)])
+//@   ensures[C05] pageAddRec(wrLog[ref(m.digest)], old(wrLen)[ref(m.digest)], gpa)
+//@   ensures[C05] forall(j, j < old(wrLen)[ref(m.digest)] ==> wrLog[ref(m.digest)][j] == old(wrLog)[ref(m.digest)][j])
+
+// TDH.MR.EXTEND: a 128-byte record ("MR.EXTEND" at 0..8, GPA at 16..23, zero elsewhere) followed by the 256-byte chunk.
+//@ func (*Measurement).mrExtend
+//@   requires m != nil && m.digest != nil && len(data) == 256
+//@   assigns nothing
+//@   modifies wrLen, wrLog
+//@   sweep[C08]
+//@   ensures[C05] wrLen == store(old(wrLen), ref(m.digest), old(wrLen)[ref(m.digest)] + 384) && wrLog == store(old(wrLog), ref(m.digest), wrLog[ref(m.digest)])
+//@   ensures[C05] mrExtendRec(wrLog[ref(m.digest)], old(wrLen)[ref(m.digest)], gpa)
+//@   ensures[C05] forall(k, 0 <= k && k < 256 ==> wrLog[ref(m.digest)][old(wrLen)[ref(m.digest)] + 128 + k] == bytesAt(data, k))
+//@   ensures[C05] forall(j, j < old(wrLen)[ref(m.digest)] ==> wrLog[ref(m.digest)][j] == old(wrLog)[ref(m.digest)][j])
+
+// InitMemoryRegion appends, for every 4 KiB page p of the region, a MEM.PAGE.ADD record for gpa+4096p and, when the
+// region is measured, for each of its 16 chunks c an MR.EXTEND record for gpa+4096p+256c followed by the chunk:
+// 128 + 16*384 = 6272 bytes per measured page, 128 per unmeasured page. It runs Length/256 iterations; the
+// precondition tagged C08 is the resource bound asked of callers: a region either carries its contents or is at most
+// 4 GiB (the largest size the 32-bit data fields of the metadata can describe).
+//@ func (*Measurement).InitMemoryRegion
+//@   requires m != nil && m.digest != nil && region != nil
+//@   requires[C05] region.GPR.Start + region.GPR.Length <= 18446744073709551616
+//@   requires[C08] region.GPR.Length == len(region.HostBuffer) || region.GPR.Length <= 4294967296
+//@   assigns nothing
+//@   modifies wrLen, wrLog
+//@   sweep[C08]
+//@   ghostparam a Int
+//@   ensures[C05] err == nil ==> region.GPR.Start % 4096 == 0 && region.GPR.Length % 4096 == 0
+//@   ensures[C05] err == nil && (m.MeasureAllRegions || region.TDVFAttributes % 2 == 1) ==> len(region.HostBuffer) == region.GPR.Length && wrLen[ref(m.digest)] == old(wrLen)[ref(m.digest)] + 6272 * (region.GPR.Length / 4096)
+//@   ensures[C05] err == nil && !(m.MeasureAllRegions || region.TDVFAttributes % 2 == 1) ==> wrLen[ref(m.digest)] == old(wrLen)[ref(m.digest)] + 128 * (region.GPR.Length / 4096)
+//@   ensures[C05] err == nil && (m.MeasureAllRegions || region.TDVFAttributes % 2 == 1) && 0 <= a && a < region.GPR.Length / 4096 ==> pageAddRec(wrLog[ref(m.digest)], old(wrLen)[ref(m.digest)] + 6272 * a, region.GPR.Start + 4096 * a)
+//@   ensures[C05] err == nil && !(m.MeasureAllRegions || region.TDVFAttributes % 2 == 1) && 0 <= a && a < region.GPR.Length / 4096 ==> pageAddRec(wrLog[ref(m.digest)], old(wrLen)[ref(m.digest)] + 128 * a, region.GPR.Start + 4096 * a)
+//@   ensures[C05] err == nil && (m.MeasureAllRegions || region.TDVFAttributes % 2 == 1) && 0 <= a && a < region.GPR.Length / 256 ==> mrExtendRec(wrLog[ref(m.digest)], old(wrLen)[ref(m.digest)] + 128 * (a / 16 + 1) + 384 * a, region.GPR.Start + 256 * a)
+//@   ensures[C05,slow] err == nil && (m.MeasureAllRegions || region.TDVFAttributes % 2 == 1) && 0 <= a && a < region.GPR.Length / 256 ==> forallq(k, 0 <= k && k < 256 ==> wrLog[ref(m.digest)][old(wrLen)[ref(m.digest)] + 128 * (a / 16 + 1) + 384 * a + 128 + k] == bytesAt(region.HostBuffer, 256 * a + k))
+//@   ensures[C05] err != nil ==> wrLen == old(wrLen) && wrLog == old(wrLog)
+//@   ensures[C05] forall(j, j < old(wrLen)[ref(m.digest)] ==> wrLog[ref(m.digest)][j] == old(wrLog)[ref(m.digest)][j])
+//@   ensures[C05] forall(r, Int, r != ref(m.digest) ==> wrLen[r] == old(wrLen)[r] && wrLog[r] == old(wrLog)[r])
+//@   loop 1 invariant 0 <= i && i <= region.GPR.Length && i % 256 == 0
+//@   loop 1 invariant measureBytes ==> wrLen[ref(m.digest)] == old(wrLen)[ref(m.digest)] + 128 * ((i + 4095) / 4096) + 384 * (i / 256)
+//@   loop 1 invariant !measureBytes ==> wrLen[ref(m.digest)] == old(wrLen)[ref(m.digest)] + 128 * ((i + 4095) / 4096)
+//@   loop 1 invariant measureBytes && 0 <= a && 4096 * a < i ==> pageAddRec(wrLog[ref(m.digest)], old(wrLen)[ref(m.digest)] + 6272 * a, region.GPR.Start + 4096 * a)
+//@   loop 1 invariant !measureBytes && 0 <= a && 4096 * a < i ==> pageAddRec(wrLog[ref(m.digest)], old(wrLen)[ref(m.digest)] + 128 * a, region.GPR.Start + 4096 * a)
+//@   loop 1 invariant measureBytes && 0 <= a && 256 * a < i ==> mrExtendRec(wrLog[ref(m.digest)], old(wrLen)[ref(m.digest)] + 128 * (a / 16 + 1) + 384 * a, region.GPR.Start + 256 * a)
+//@   loop 1 invariant[C05,slow] measureBytes && 0 <= a && 256 * a < i ==> forallq(k, 0 <= k && k < 256 ==> wrLog[ref(m.digest)][old(wrLen)[ref(m.digest)] + 128 * (a / 16 + 1) + 384 * a + 128 + k] == bytesAt(region.HostBuffer, 256 * a + k))
+//@   loop 1 invariant forall(j, j < old(wrLen)[ref(m.digest)] ==> wrLog[ref(m.digest)][j] == old(wrLog)[ref(m.digest)][j])
+//@   loop 1 invariant forall(r, Int, r != ref(m.digest) ==> wrLen[r] == old(wrLen)[r] && wrLog[r] == old(wrLog)[r])
+//@   loop 1 decreases[C08] region.GPR.Length - i
